@@ -19,25 +19,286 @@ CLAIMED = {
              "rejection, case-insensitivity, dotted round trip, subdomain = suffix, zone selection), proved for all inputs; "
              "model tied to the Rust code by a differential stream over boundary-heavy generated inputs.",
         design="5/C16", technique="Coq proof over executable model + model/impl correspondence (extraction)"),
+    "C02": dict(
+        text="Theorems about the Gallina model of Zone/ZoneRecords (new, insert, insert_wildcard, resolve, zone_result_helper): "
+             "for every apex, SOA or none, and every list of ordinary and wildcard insertions of well-formed names (any order, any "
+             "types, NS at the apex, CNAME next to other data, empty non-terminals, multi-label wildcard matches) building the zone "
+             "never panics and the record tree represents exactly the inserted records (duplicates dropped, TTL raised to the SOA "
+             "minimum); every lookup of a well-formed name terminates without panic for all 65536 query type codes; and for zones "
+             "satisfying deviation D1 the result equals that of an independent flat specification of RFC 1034 4.3.2 / RFC 4592 "
+             "(existence = apex or at-or-above an owner, first delegation cut strictly below the apex unless the question is NS at "
+             "the cut, CNAME unless asked, wildcard set of the closest encloser, name error otherwise), up to the order of the type "
+             "groups of an ANY answer. Corollaries named after the property's sentences: owner is the query name, existing names "
+             "incl. empty non-terminals and the apex (whatever NS it carries) give an empty answer, name error only if the name and "
+             "any covering wildcard are absent, every returned RR is an inserted record with its TTL and data, an NS question at a "
+             "cut is answered directly, names at or beneath a cut get the referral. Model tied to the Rust code by a differential "
+             "stream (random zones of <= 12 records over a 3-label alphabet to depth 4, exhaustive small scope, merge of two zones, "
+             "malformed over-long names; lookups to depth 5 x 11 query types; dumps of all_records/all_wildcard_records/SOA) on which "
+             "the extracted flat specification is also run, with an independent python RFC 1034 lookup as oracle.",
+        note="Wildcard NS (RFC 4592 4.2: undefined) is specified as the code's comment says: a delegation of <next label>.<closest "
+             "encloser>. Zones with records beneath (or a wildcard at) a non-apex NS owner are outside the refinement (D1) but inside "
+             "the no-panic theorem and the correspondence stream.",
+        design="5/C02", technique="Coq proof over executable model + model/impl correspondence (extraction)"),
+    "C03": dict(
+        text="Theorems about the Gallina model of Message::from_octets (header, four count loops, per-type RDATA, name decoding "
+             "with pointer following): for every byte string the decoder returns a message or an error (never a panic; the model's "
+             "recursion fuel of 16385 nested name decodings and 130 label iterations is never exhausted, because pointer targets "
+             "strictly decrease and are below 2^14), every error carries the first two octets as id exactly when two octets exist, "
+             "decode bs = Ok m <-> Parses bs m for the relational RFC 1035 grammar (labels <= 63, names <= 255, strictly backward "
+             "pointers, RDLENGTH = consumed, sections as long as the counts), and every decoded message is well formed. Model tied "
+             "to the Rust code by a differential stream (valid, truncated, mutated, random and adversarial inputs up to 64 KiB) and "
+             "an independent python RFC 1035 decoder as oracle.",
+        note="Stack use per frame is a compiler matter outside the model: the theorem gives the hop bound (<= 16384 nested calls), "
+             "the thorough tier decodes the maximal legal pointer chain with the release build on a 2 MiB thread in a subprocess. "
+             "The step-count bound decode_steps (DESIGN C03 T.2) is not proved; termination and the recursion depth bound are.",
+        design="5/C03", technique="Coq proof over executable model + model/impl correspondence (extraction)"),
+    "C04": dict(
+        text="Theorems about the Gallina model of Message::to_octets (WritableBuffer with the name -> pointer table, whole-name "
+             "compression of owner/question names, memoisation of RDATA names, RDLENGTH back-patching): an invariant of the buffer "
+             "(every table entry is 0xC000 + off with off < 2^14 and the name is written in full, pointer-free, at off, inside the "
+             "buffer) holds initially and is preserved by every encoder step, so every pointer emitted addresses the start of an "
+             "identical name written earlier; for every well-formed message of any size, encode m = Ok bs -> Parses bs m for the "
+             "relational RFC 1035 grammar (the independent decoder) and decode bs = Ok m for the model of from_octets; the grammar "
+             "reads at most one message out of a byte string; encoding succeeds exactly when the four counts and every opaque RDATA "
+             "length fit 16 bits; every byte string that decodes re-encodes (unconditionally) to octets that decode to the same "
+             "message. Model tied to the Rust code by a byte-exact differential stream (size-targeted messages around offsets "
+             "16384 and 65536, header sweep, all record types) with an independent python RFC 1035 decoder and pointer walk as oracle.",
+        note="wf_message (names wf_name, integers in range, RDATA shape matching the type code) is the hypothesis on message "
+             "values; the harness builds messages through the public constructors, which establish it.",
+        design="5/C04", technique="Coq proof over executable model + model/impl correspondence (extraction)"),
     "C05": dict(
-        text="(placeholder, to be refined) Theorems about the Gallina model of SharedCache/Cache/PartitionedCache: the structural "
-             "invariant is preserved by every operation and history, the model refines an abstract map from (name, type, data) "
-             "to expiry instant, and the C05 corollaries (TTL 0 never stored, re-insert restarts the lifetime without duplicating, "
-             "nothing expired is returned, reported TTL <= time left, live records are returned); model tied to the Rust code by "
-             "whole-state comparison after every operation of generated histories under a virtual clock.",
-        note="Thread schedules and std::sync::Mutex are outside the model (each SharedCache method is one critical section). "
-             "PriorityQueue tie-breaking among equal instants is a parameter of the model.",
+        text="Proved in Coq for the hand-written Gallina model of SharedCache/Cache/PartitionedCache (state exactly as in cache.rs; "
+             "for every PriorityQueue tie-break): the representation invariant holds initially and is preserved by every "
+             "operation, so every history of insert/insert_all/get/raw get/prune/clock steps completes without reaching a panic "
+             "site; every operation refines an abstract map (name,type,data)->expiry; over all histories a record returned by get "
+             "was last inserted (TTL>0) at t0 with TTL T, now < t0+T and reported TTL*1s <= time left (raw getter: TTL bound only); "
+             "every stored record stems from a TTL>0 insertion and expires exactly TTL later (TTL 0 never stored); re-insertion "
+             "resets the expiry, changes nothing else and does not grow the count; no answer lists a key twice; a cached record "
+             "with >= 1 whole second left is returned for its type and for ANY with TTL = whole seconds left. The model is tied "
+             "to the Rust code by comparing outputs and the whole state dump after every operation of generated histories under "
+             "a virtual clock; a python oracle evaluates the property on the implementation's output alone.",
+        note="Interpretation: Cache::get withholds a record during its last incomplete second (its TTL would read 0; proved as "
+             "C05_last_second_withheld), so 'not expired' in the last clause is read as 'at least one whole second left'. "
+             "'Last inserted' = last insertion with TTL > 0 (SharedCache skips TTL 0). Thread schedules and std::sync::Mutex are "
+             "outside the model (each SharedCache method is one critical section).",
         design="5/C05 and C15", technique="Coq proof over executable model + model/impl correspondence (extraction)"),
     "C15": dict(
-        text="(placeholder, to be refined) Theorems about the Gallina model of SharedCache/Cache/PartitionedCache: the structural "
-             "invariant (record count = number of distinct entries, per-name sizes, next_expiry, both queues) is preserved by "
-             "every operation and history, the model refines an abstract map, and the C15 corollaries about prune (nothing expired "
-             "left, size bound, exact report, whole names in LRU order and only while over size, termination); model tied to the "
-             "Rust code by whole-state comparison after every operation of generated histories under a virtual clock.",
-        note="Thread schedules and std::sync::Mutex are outside the model (each SharedCache method is one critical section; the "
-             "thorough tier of C15 hammers one cache from 2..8 threads and checks the invariant at quiescence). PriorityQueue "
-             "tie-breaking among equal instants is a parameter of the model.",
+        text="Proved in Coq for the same model (for every PriorityQueue tie-break): the invariant (unique keys, no duplicate value "
+             "per name/type, per-name size = number of records >= 1, next_expiry = earliest expiry, both queues = the names with "
+             "priorities last_read/next_expiry, current_size = sum of sizes) holds after every history; no history reaches a "
+             "usize-underflow panic site or runs out of fuel, in particular prune terminates with |expiry queue|+1 expiry steps "
+             "and |access queue| evictions and its while loop cannot spin on an empty queue; current_size is the cardinality of "
+             "the abstract map; prune refines the abstract prune: no entry with expiry <= now remains, at most desired_size "
+             "entries remain, whole names are evicted in order, each cached, alive and least recently used at its turn and only "
+             "while the count exceeds the desired size, last-use times of survivors are unchanged, and the four reported numbers "
+             "are the cardinalities of the corresponding abstract sets; the expired count does not depend on how ties among "
+             "equal expiry instants are broken. Model tied to the Rust code by whole-state comparison after every operation of "
+             "generated histories under a virtual clock (the regression witness of the fixed upsert defect runs first); a python "
+             "oracle evaluates the prune/count clauses on the implementation's dumps alone.",
+        note="NOT proved: anything about threads. Thread schedules and std::sync::Mutex are outside the model; that each "
+             "SharedCache method is one critical section is read off the source, and the thorough tier hammers one cache from "
+             "2..8 threads and checks the invariant on the quiescent dump (a test, not a proof). Which of two names with EQUAL "
+             "last_read is evicted first is left open by the theorems (tie-break parameter) and avoided by the generator.",
         design="5/C05 and C15", technique="Coq proof over executable model + model/impl correspondence (extraction)"),
+    "C01": dict(
+        text="LOCAL PART ONLY at this stage (zones + cache: local::resolve_local and resolve() in authoritative-only mode). "
+             "Theorems about the Gallina model of resolve_local / prioritising_merge / the question stack over the zone model and a "
+             "cache read function: a name owned by an authoritative zone (longest enclosing apex has a SOA, name not at/beneath a "
+             "delegation point) is answered by that zone alone -- exactly the zone's RRs or a name error, with the zone's SOA, or the "
+             "zone's CNAME RR followed by the target's resolution -- never a referral; two cache states that agree outside names "
+             "whose most specific zone is authoritative give the same result for every question (the cache is never read for such a "
+             "name), and only the zone with the longest apex is consulted; a non-authoritative zone holding records of the asked name "
+             "and type yields exactly those, and for ANY the merge keeps the zone's list intact and drops every cached RR whose "
+             "(name, type) the zone has; AuthoritativeNameError arises only from a NameError of the authoritative zone selected for "
+             "the question name (never through an alias); no fuel exhaustion, panic only if the zone model panics. Model tied to the "
+             "Rust code by a differential stream over generated zone sets x cache contents x questions, comparing both the "
+             "ResolvedRecord of resolve() and the raw LocalResolutionResult, with a python oracle evaluating the property on the "
+             "implementation's output.",
+        note="Recursive and forwarding modes (no upstream contact for locally answered questions, nothing upstream used for owned "
+             "names: done_means_no_upstream, log_names_not_owned) and the server's rcode mapping are NOT covered yet; they are "
+             "covered by the resolver subsystem's streams and theorems when they land. What a single zone answers for a name is "
+             "C02's subject; C01's theorems are stated in terms of the zone's own result. Deviation D2: a chain leaving authority is "
+             "non-authoritative (pinned test).",
+        design="5/C01 and C10", technique="Coq proof over executable model + model/impl correspondence (extraction)"),
+    "C10": dict(
+        text="LOCAL PART ONLY at this stage (chains whose links come from zones and the cache). Theorems about the Gallina model "
+             "of resolve_local: for a question of a type other than CNAME/ANY every successful local result that is not a direct "
+             "referral satisfies chain_ok (CNAMEs first, each owner the previous target, starting at the question name, no owner "
+             "twice, then only RRs of the asked type owned by the last target) for every mix of authoritative zones, "
+             "non-authoritative zones and cache; a referral only arises as the zone's own direct result for the question name; the "
+             "recursion is two guards plus one step on the stack extended by the question, so the stack never repeats a question "
+             "nor exceeds 32, fuel 33 - |stack| suffices, and RecursionLimit/DuplicateQuestion only ever come from the question's "
+             "own guards (inner loops end the chain in a partial result). Model tied to the Rust code by a differential stream "
+             "with alias graphs of 0..40 links spread over zones and cache, cycles and self-loops, RR order compared exactly.",
+        note="Chains continuing upstream (filter_chain_ok, recursive_chain_ok, forwarding_chain_ok; findings F8/F13) are NOT covered "
+             "yet; they are covered by the resolver subsystem's streams and theorems when they land. local_chain_ok assumes of the "
+             "sources: zone answers are owned by the query name with the asked type (proved here for zone trees whose record maps "
+             "are keyed by record type -- decidable, preservation by insertion is C02's) and cache reads return RRs of the asked "
+             "name and type (C05). A direct referral from an authoritative zone puts NS RRs in the answer (C09's finding F12) and "
+             "is excluded from chain_ok.",
+        design="5/C01 and C10", technique="Coq proof over executable model + model/impl correspondence (extraction)"),
+    "C06": dict(
+        text="Theorems about the Gallina model of the upstream-reply filter (validate_nameserver_response, follow_cnames, "
+             "get_better_ns_names, get_nxdomain_nodata_soa) and of the header gate (response_matches_request as query_nameserver "
+             "applies it over UDP then TCP), for every question, every delegation depth and every reply: the filter is total (no "
+             "panic; both CNAME loops end before the model's fuel, by pigeonhole on the targets of the CNAME map); every record it "
+             "lets through is `allowed` (asked type at the end of the CNAME path from the question name in the answer section / a "
+             "CNAME on that path -- for a CNAME question: a CNAME owned by the question name, nothing followed; NS of the deepest ancestor-or-self of the question name with more labels than the delegation in "
+             "use; A/AAAA of a host those NS records name; the single SOA of an NXDOMAIN/NODATA reply owned by an ancestor with at "
+             "least that many labels); accepted answers are the CNAME chain in order, no owner twice, then records at the final "
+             "name only; every referral is strictly deeper than the delegation in use and names at least one host, each host named "
+             "by an accepted NS record; response_matches_request is true iff id, QR, opcode and question match, TC is clear and "
+             "rcode is NoError/NameError, and query_nameserver returns only a reply that passed it. Model tied to the Rust code by "
+             "a differential stream of adversarial replies through the private filter (hook H4) and through the real "
+             "query_nameserver over the in-memory transport (hook H3); an independent python oracle evaluates `allowed`, chain "
+             "order, referral progress and the gate on the implementation's output.",
+        note="The last sentence of the property text (nothing else reaches the cache or the answer: only_validated_is_cached) is a "
+             "statement about resolve_with_nameserver_response / resolve_recursive and belongs to the recursive resolver model "
+             "(C07/C08 subsystem), which uses filter_sound and delegation_progress from here. The tree already contains the fixes: "
+             "commits 4fb31f1 (findings F8/F13), eed2feb (F9) and cbd301d (a CNAME question is answered by the CNAME record of the "
+             "question name, not chased); their witnesses are corpus cases.",
+        design="5/C06", technique="Coq proof over executable model + model/impl correspondence (extraction)"),
+    "C07": dict(
+        text="FIRST STEP. Executable Gallina model of recursive resolution (resolve_recursive with its 60 s budget, candidate "
+             "selection, fast/slow candidate passes, resolve_hostname_to_ip in the four protocol modes, referral handling, glue "
+             "shortcut, CNAME continuation, cache inserts, question stack) over an upstream oracle, and an independent specification "
+             "of the DNS universe (Universe.serve: what each authoritative server says; auth_answer: the expected final answer; "
+             "consistentb). Theorems that exist: C07_referral_strictly_deeper (the referral a server gives names a delegation "
+             "point enclosing the question name, strictly deeper than the zone it comes from), C07_auth_answer_from_universe (every "
+             "record of the expected answer is authoritative data of a universe zone enclosing its owner), C07_example_two_level "
+             "(a worked consistent universe on which the model, talking to Universe.serve through the wire codec inside Coq, returns "
+             "exactly auth_answer for an alias and for a missing name). The rest of the property -- the resolver returns the "
+             "authoritative answer on every consistent universe, every referral followed is strictly deeper -- is at this stage "
+             "covered by the differential stream and the oracle only: generated universes (depth 1..5, 1..3 nameservers per zone, "
+             "in/out-of-bailiwick and sibling nameserver names, glue present/absent, v4/v6/dual addresses, cross-zone CNAMEs, "
+             "missing names/types, question sequences sharing a cache) are served to the real resolver through the in-memory "
+             "transport (hook H3) from a reply table computed by the extracted Universe.serve; the implementation's result must "
+             "equal the extracted auth_answer and the model must agree with the implementation on every exchange, result and the "
+             "final cache.",
+        note="Not yet proved: referral_progress on the model side, answer_provenance, C07_correct_partial. Stated hypothesis of the "
+             "property as implemented: every listed nameserver answers (the first candidate that gives no usable reply ends the "
+             "resolution with DeadEnd). The cache model used is a small executable instance (SimpleCache) at a fixed virtual "
+             "instant, to be replaced by Cache/CacheModel.v.",
+        design="5/C07", technique="Coq proof over executable model + model/impl correspondence (extraction)"),
+    "C08": dict(
+        text="FIRST STEP. Executable Gallina model of the upstream transport (query_nameserver: UDP attempt into a 512-byte buffer, "
+             "header gate, TCP attempt with 2-byte length framing, 5 s time-out each) and of the recursive and forwarding resolvers "
+             "with their 60 s budget as a cost semantics, total functions with explicit fuel and Panic/OutOfFuel/Timeout outcomes. "
+             "Theorems that exist, for EVERY oracle: C08_udp_exchange_cost_bounded and C08_tcp_exchange_cost_bounded (an exchange "
+             "costs at most 5 s per transport), C08_udp_exchange_time, C08_tcp_exchange_time, C08_query_nameserver_time (time only "
+             "moves forward, by at most 5 s / 5 s / 10 s, and never past the budget), C08_charge_within_budget (the result of the "
+             "60 s wrapper is produced at cost <= 60 s). The rest of the property -- termination of every resolution for every "
+             "upstream behaviour, no panic, no fabricated record -- is at this stage covered by the differential stream and the "
+             "oracle only: every assignment of 10 faults to the first 3 exchanges of a recursive resolution and the first 2 of a "
+             "forwarded one, random plans (delays up to 70 s, exact time-out ties, lying TCP prefixes) on universes with lame, dead, "
+             "circular and upward delegations, alias loops, 40-link chains and unresolvable nameserver names, run on the real code "
+             "under tokio's paused clock; checked: completion, virtual elapsed <= 60 s, each exchange <= 5 s, no panic, every "
+             "returned record occurs in an upstream reply of the case or in local data, and agreement with the model.",
+        note="Not yet proved: recursive_terminates, forwarding_terminates, no_panic, answer_provenance. Runtime clauses outside the "
+             "model: that tokio's timeout really fires, cancellation safety, real sockets.",
+        design="5/C08", technique="Coq proof over executable model + model/impl correspondence (extraction)"),
+    "C18": dict(
+        text="FIRST STEP. On the transport model, for every oracle: C18_udp_exchange_dest, C18_tcp_exchange_dest, "
+             "C18_query_nameserver_dest, C18_port_fixed (every call query_nameserver logs goes to exactly the IP address and port "
+             "it was given, with the question and RD flag it was given), C18_rtypes_of_mode (only-v4 asks for A only, only-v6 for "
+             "AAAA only, prefer-* for the preferred family first). The statements on the whole exchange log of the recursive and "
+             "forwarding models (only_v4, only_v6, prefer_*, port_fixed, forward_only_forwarder) are not proved yet and are at "
+             "this stage covered by the differential stream and the oracle only: universes whose nameservers have v4-only, v6-only "
+             "or dual addresses learnt from hints, glue, cache or recursion x 4 protocol modes x non-default upstream ports, and "
+             "forwarding mode with IPv4/IPv6 forwarders; checked on the implementation's exchange log: allowed family, configured "
+             "port, only the forwarder, no other-family contact while a preferred-family address was held, preferred family asked "
+             "first.",
+        note="Not yet proved: the induction over the execution of the recursive model.",
+        design="5/C18", technique="Coq proof over executable model + model/impl correspondence (extraction)"),
+    "C14": dict(
+        text="Theorems about the Gallina model of hosts/{deserialise,serialise,types}.rs and of std's IP address text codec: "
+             "reading the rendering of a hosts-file syntax tree (arbitrary ASCII white space, aliases, comments after any field "
+             "also glued, interface-suffixed addresses, CRLF) yields its last-writer-wins meaning (hosts_parse_denotes); the first "
+             "mapping line with a malformed address or name is an error (hosts_errors_*); the reader never panics on any text "
+             "(parse_hosts_total); serialise-then-deserialise gives the same mappings for text-safe names (hosts_roundtrip); "
+             "Zone::from(hosts) holds exactly one A/AAAA record per mapping with TTL 5, root apex, no SOA, no wildcards, and "
+             "TryFrom<Zone>/from_zone_lossy give the hosts data back (hosts_zone_exact/back); Display-then-FromStr is the identity "
+             "on IPv4 addresses (ipv4_roundtrip). Model tied to the Rust code by a differential stream (IP codec, str::lines, parse, "
+             "serialise, round trip, zone conversion and lookups, merge) and by runs of the real htoh/htoz/ztoh binaries.",
+        note="The IPv6 text round trip is a per-address decidable premise (v6_ok) of hosts_roundtrip, proved for IPv4 and validated "
+             "for IPv6 by the stream; std's parser/printer are modelled by hand from the toolchain's source. A name whose leftmost "
+             "label is '*' does not survive htoz | ztoh (zone text reads it as a wildcard): reported, counted in the evidence. "
+             "zone.resolve on the converted zone is checked by the stream (and C02's theorems), not by a C14 theorem.",
+        design="5/C14", technique="Coq proof over executable model + model/impl correspondence (extraction) + real binaries"),
+    "C11": dict(
+        text="Theorems about the Gallina model of zones/deserialise.rs (tokeniser, parse_rr, Zone::deserialise), for all inputs: "
+             "tokenise_render (an entry written in the layout family -- raw characters, \\X and \\DDD escapes, quoted and unquoted "
+             "tokens, white space, comments, parenthesised groups spanning lines with parentheses also glued to tokens -- is read "
+             "back as exactly its tokens), parse_rr_forms (each of the ten field shapes, for every record type whose RDATA tokens "
+             "parse, under a stated decidable 'unambiguous' condition: owner/TTL/wildcard inheritance as RFC 1035 5 says), one "
+             "rejection lemma per listed fault ($INCLUDE, class other than IN with explicit owner, second SOA, wildcard SOA, owner "
+             "outside the apex, relative name / @ / * without origin, no TTL to inherit), no partial load (a zone is built only "
+             "after every entry was accepted) and soa_raises_ttls (every record of the returned zone has TTL >= SOA MINIMUM). "
+             "NOT proved in Coq: the whole-file statement parse(render f) = denote f (composition over the list of entries); it "
+             "is checked by the correspondence stream, whose oracle is an independent python denotation of the abstract file.",
+        note="Conventions D3 (SOA RR loaded with TTL = MINIMUM, inherited as loaded) and D4 (a non-IN class mnemonic where an owner "
+             "may stand is an owner). Interpretations D9/D10: an unterminated quoted string / an open parenthesis at end of input "
+             "is accepted by the tokeniser (malformed text outside the property's fault list; generated, model = impl checked). "
+             "std's Ipv4Addr/Ipv6Addr FromStr/Display are a parameter of the model (all theorems hold for every codec; the driver "
+             "instance is coq/ZoneFile/ZfIpStub.v until Ip/IpModel.v replaces it).",
+        design="5/C11", technique="Coq proof over executable model + model/impl correspondence (extraction)"),
+    "C13": dict(
+        text="Escape-level theorem about the Gallina models of zones/serialise.rs and the tokeniser: escape_roundtrip -- the text "
+             "serialise_octets writes for ANY octet string (all 256 octets, quoted or unquoted) is tokenised back to exactly that "
+             "octet string, alone or inside any entry of the layout family -- and serialise_octets writes printable ASCII only. "
+             "The zone-level theorem (zone_roundtrip, normalise_idempotent) is NOT yet proved; whole-zone round trips are checked "
+             "by the correspondence stream: zones parsed from generated text (labels over all ASCII octets but '.', RDATA over all "
+             "256 octets, authoritative or not, root and non-root apex, wildcard and apex records) and zones built through "
+             "Zone::new/insert/insert_wildcard are serialised and re-parsed by the real code (equal zone, idempotent text), the "
+             "serialiser model is compared with the real serialiser text, and the real ztoz binary is run twice on generated files.",
+        note="Outside the property as scoped in DESIGN D5/D7: non-root apex without SOA, Unknown-type records, SOA-type records "
+             "pushed through insert() (the serialiser skips them), labels containing '.', non-ASCII labels, labels starting with '*' "
+             "built through the API. HashMap order of type groups is canonicalised (stable sort of a block's lines by owner and type).",
+        design="5/C13", technique="Coq proof over executable model (escape level) + model/impl correspondence (extraction) + real ztoz binary"),
+    "C17": dict(
+        text="Zone-file part: theorems about the Gallina model of zones/deserialise.rs and of the tree insertion of zones/types.rs, "
+             "for EVERY list of Unicode scalar values and every address codec: the tokeniser and the whole parser return Ok or Err, "
+             "never Panic (every index, slice, last-character access and the from_labels(..).unwrap() of ZoneRecords::insert are "
+             "unreachable under Rust's panic condition) and never OutOfFuel (the tokeniser makes one iteration per character "
+             "consumed -- any fuel at least as long as the input gives the same result; the two outer loops make at most |text|+1 "
+             "iterations), and the insertion recursion depth is at most 128. The hosts-file part is the hosts subsystem's theorem. "
+             "Correspondence: random Unicode, grammar-aware mutations, 127/128-label names, 20 KB (quick) / 1 MB (thorough) tokens "
+             "and lines, each case run by the real parser in its own 2 MiB-stack thread under a watchdog.",
+        note="That the model has ALL of Rust's panic sites is established by reading and by the stream, not by proof.",
+        design="5/C17", technique="Coq proof over executable model + model/impl correspondence (extraction)"),
+    "C12": dict(
+        text="Theorems about the Gallina model of load_zone_configuration / get_files_from_dir (file system as data: explicit "
+             "files, directory listings; a file = what Zone::deserialise / Hosts::deserialise return), Hosts::merge, From<Hosts> for "
+             "Zone, Zones::insert_merge: load never panics and returns None exactly when a directory cannot be listed or a file of "
+             "the effective sequence cannot be read/parsed; the effective sequence is the -z/-a files in argument order followed by "
+             "each -Z/-A directory's non-directory entries in byte-wise sorted order (unique); hosts files are last-writer-wins per "
+             "name and family; the merged hosts become a root-apex zone without SOA holding exactly one A/AAAA record with the hosts "
+             "TTL per entry, merged LAST; per apex the loaded zone is the chain of Zone::merge over that apex's inputs, its SOA the "
+             "last one supplied; on the flat specification the chain is the union of the files' ordinary and wildcard records with "
+             "duplicates removed and exactly one apex SOA, the last; a zone representing a flat zone answers as RFC 1034 4.3.2 on "
+             "it (from C02's refinement theorem). Model tied to the Rust code by a differential stream that writes generated "
+             "configurations to disk and loads them with the real resolved::fs::load_zone_configuration.",
+        note="ONE link is proved only relative to an explicit premise (theorem C12_zone_is_chain_of_files_partial): that the record "
+             "tree after Zone::merge represents the flat merge of the two operands' flat zones (the lemma planned for "
+             "Zone/ZoneMergeProofs.v). The stream's oracle checks the composed statement (dump = union, one SOA, answers from the "
+             "union) on every generated configuration. Files are already-parsed data in the model (text <-> data is C11/C14); the "
+             "file system is assumed not to change during one load; symlinks other than dangling ones and a file used in both "
+             "roles are outside the generated inputs.",
+        design="5/C12", technique="Coq proof over executable model + model/impl correspondence (extraction)"),
+    "C19": dict(
+        text="Theorems about the Gallina reload state machine (state = the Zones value inside zones_lock; reload st fs = load fs if "
+             "it succeeds, else st; a query reads the state once): a reload installs exactly the freshly loaded configuration or "
+             "leaves the previous one fully in force; the new state is a function of the files alone; for every interleaving of "
+             "queries and reloads each reply is the reply of exactly one state of the history, each of which is the initial "
+             "configuration or the result of one successful load. Tied to the code twice: a differential stream of reload "
+             "histories through the real load_zone_configuration, and runs of the REAL resolved binary (release build, "
+             "authoritative-only, -Z/-A directories) with edit sequences, SIGUSR1, the 'done - success/failure' log line, and UDP "
+             "queries before, during (a thread querying continuously) and after every reload, compared with the model's state "
+             "machine; version-stamped records and alias chains across files make a mixed reply match neither configuration.",
+        note="That tokio's RwLock serialises the writer against in-flight readers (the atomicity of the swap under real scheduling) "
+             "is outside the model: reloads and queries are atomic steps of the model by construction; it is observed on the real "
+             "binary only (replies during a reload are exactly old or exactly new, never old after new). load is C12's model.",
+        design="5/C19", technique="Coq proof over executable model + model/impl correspondence (extraction) + real-binary runs"),
 }
 
 NA_REASON = "not yet implemented in this revision of the framework (planned: see DESIGN.md section 9); not claimed"
